@@ -66,7 +66,7 @@ class Fail(Exception):
 class Rec:
     """what the hooks saw (the monitor's input, next to the log)"""
     def __init__(self):
-        self.trig = {}        # node -> [(time, (value, exc))]
+        self.trig = {}        # node -> [(time, outcome code, log length at that moment)]
         self.created = {}     # node -> time
         self.tmo = {}         # node -> (created, delay, value)
         self.yields = {}      # (actor, step) -> (time, target node or None)
@@ -128,7 +128,7 @@ class Runner:
             return
         v = ev._value
         out = None if v is None else self.enc(v[0] if v[1] is None else v[1])
-        self.rec.trig.setdefault(i, []).append((self.now(), out))
+        self.rec.trig.setdefault(i, []).append((self.now(), out, len(self.log)))
         c = self.rec.cond.get(i)
         if c is not None and len(self.rec.trig[i]) == 1:
             c['leaf_ok'] = [l for l in c['leaves'] if self.nodes[l].ok]
@@ -351,7 +351,7 @@ def monitor(g, log, rec):
     # -- an event is triggered at most once; a second trigger is an error and changes nothing
     for i, v in rec.trig.items():
         if len(v) > 1:
-            bad.append('event %d triggered %d times (at %s)' % (i, len(v), [t for t, _ in v]))
+            bad.append('event %d triggered %d times (at %s)' % (i, len(v), [x[0] for x in v]))
     for (actor, step, t, kind, node, was, raised, same) in rec.ops:
         if was and raised != 'error':
             bad.append('%s on already triggered event %d by actor %d step %d raised no error' % (kind, node, actor, step))
@@ -512,12 +512,17 @@ def monitor(g, log, rec):
         # a failure counts as unhandled only if nobody was waiting for the event: whoever waited for it
         # before it fired must have been resumed (and thereby handles it) before the failure is escalated
         i = unhandled[0]
-        logged = {(e[0], e[1]) for e in log}
+        logged = {(e[0], e[1]): e[3:] for e in log[rec.trig[i][0][2]:]}     # resumptions after the trigger
+        before = {(e[0], e[1]) for e in log[:rec.trig[i][0][2]]}
         for (actor, step), (y, node) in rec.yields.items():
-            if node == i and y < trig_time[i] and (actor, step) not in logged:
-                bad.append('event %d failed at %d while actor %d (step %d) had been waiting for it since %d, '
-                           'yet the waiter was not resumed and the failure ended the run'
-                           % (i, trig_time[i], actor, step, y))
+            if node == i and y < trig_time[i] and (actor, step) not in before:
+                if (actor, step) not in logged:
+                    bad.append('event %d failed at %d while actor %d (step %d) had been waiting for it since %d, '
+                               'yet the waiter was not resumed and the failure ended the run'
+                               % (i, trig_time[i], actor, step, y))
+                elif logged[(actor, step)] == trig_out[i]:
+                    bad.append('event %d failed at %d and its exception was raised in actor %d (step %d) waiting '
+                               'for it, yet the failure was escalated as unhandled' % (i, trig_time[i], actor, step))
     if res is not None:
         if res[0] == 10 and u[0] == 'event':
             if u[1] not in trig_out or res[1:] != trig_out[u[1]]:
@@ -719,6 +724,12 @@ def corner_graphs():
            P(3, [Y(['to', 9, 1, 0]), ['succ', 0, 5], Y(['to', 10, 3, 0]), ['succ', 1, 6]])], nev=2),
         # a member fails: the condition fails with it
         G([P(1, [Y(['all', 4, [['ev', 0], ['to', 3, 5, 1]]])]), P(2, [Y(['to', 5, 1, 0]), ['fail', 0, 8]])], nev=1),
+        # a failure is handled by whoever waits for the event: a process, a native activity, a condition's waiter
+        G([P(1, [Y(['ev', 0]), Y(['to', 3, 2, 1])]), P(2, [Y(['to', 4, 1, 0]), ['fail', 0, 5], Y(['to', 5, 3, 0])])]),
+        G([P(1, [Y(['to', 4, 2, 0]), ['fail', 0, 5], Y(['to', 5, 2, 0]), Y(['to', 6, 1, 0])])], mode='emb',
+          until=('time', 6), nats=[[['await', 0], ['wait', 1], ['await', 0]]], envpos=1),
+        G([P(1, [Y(['any', 4, [['ev', 0], ['to', 3, 5, 1]]]), Y(['to', 6, 2, 1])]),
+           P(2, [Y(['to', 5, 1, 0]), ['fail', 0, 8], Y(['to', 7, 3, 0])])]),
         # native delay / flag yields, interrupted and not
         G([P(1, [Y(['nd', 3]), Y(['nd', 0]), Y(['nf', 0])]), P(2, [Y(['to', 3, 1, 0]), ['intr', 0, 6]])],
           mode='emb', nflags=1, nats=[[['wait', 5], ['set', 0]]], until=('time', 9), envpos=1),
